@@ -34,10 +34,21 @@ Contract clauses evaluated (each is one obligation)
                                              stores exactly these tallies (spans times mu) in edge_likelihoods,
                                              sizebiased_likelihoods, mutation_edges, block_likelihoods,
                                              block_edges, mutation_blocks
+                                             (the block arrays of the object are reported under the four
+                                             block clauses)
+  known-block-count-includes-singletons-where-both-nodes-isolated
+                                             block-singleton-count-exact on inputs in which an unphased individual
+                                             carries a mutation at a position where NEITHER of its nodes has an
+                                             edge (left flank or gap) and a block of that individual follows:
+                                             the real code adds such mutations to the count of that next block.  Isolated here (condition decided
+                                             from the input alone) so that block-singleton-count-exact stays
+                                             strict on every other input; the other three block clauses are NOT
+                                             relaxed on these inputs.
   known-block-tally-when-one-node-isolated   the four block clauses on inputs where one node of an unphased
                                              individual is isolated over a region in which the other is not
-                                             (outside the stated precondition of _block_singletons, DESIGN C22);
-                                             kept apart so the generic clauses stay strict
+                                             (outside the stated precondition of _block_singletons, DESIGN C22):
+                                             AssertionError or misattributed counts/spans; kept apart so the
+                                             generic clauses stay strict
 
 Input space and bound
   quick    : every rooted leaf-labelled tree shape with <= 4 leaves (polytomies included, 26+4+1 shapes) with
@@ -130,7 +141,7 @@ def oracle_blocks(ts, unphased):
     {frozenset(two edges): (singletons, span)} and, per mutation, the key of its block (None if none),
     plus the set of individuals for which one node is isolated where the other is not ("lopsided") and the
     mutations on a node of an unphased individual at a position where NEITHER of its nodes has an edge
-    ("stray": they lie in no block).
+    and that are followed, further right, by a block of the same individual ("stray": they lie in no block).
     """
     blocks = {}
     mut_key = [None] * ts.num_mutations
@@ -153,8 +164,8 @@ def oracle_blocks(ts, unphased):
                 lopsided.add(ind.id)
             inside = [m for m in range(ts.num_mutations)
                       if ts.mutations_node[m] in (u, v) and a <= pos[m] < b]
-            if eu == NULL and ev == NULL:
-                stray.extend(inside)
+            if eu == NULL and ev == NULL and any(x != NULL and y != NULL for (x, y), a2, _ in runs if a2 >= b):
+                stray.extend(inside)  # ... and a block of the same individual follows
             if eu == NULL or ev == NULL:
                 continue
             key = frozenset((eu, ev))
@@ -488,21 +499,40 @@ def compare_blocks(ts, stats, edges, mblock, o_blocks, o_key):
     return ok_edges, ok_span, ok_count, ok_map, obs
 
 
+KNOWN_LOPSIDED = "known-block-tally-when-one-node-isolated"
+KNOWN_STRAY = "known-block-count-includes-singletons-where-both-nodes-isolated"
+
+
+def report_blocks(rep, key, inp, expected, verdicts, obs, lopsided, stray, nontrivial):
+    """Route the four block verdicts to the generic clauses, or to the clause of the one isolated condition
+    that applies (decided from the INPUT alone, never from the outcome)."""
+    oe, osp, oc, om = verdicts
+    if lopsided:
+        rep.case(KNOWN_LOPSIDED, oe and osp and oc and om, key=key, input=inp, observed=obs, expected=expected)
+        return
+    rep.case("block-edges-are-the-two-leaf-branches", oe, key=key, input=inp, observed=obs, expected=expected,
+             nontrivial=nontrivial)
+    rep.case("block-span-equals-shared-interval", osp, key=key, input=inp, observed=obs, expected=expected,
+             nontrivial=nontrivial)
+    rep.case(KNOWN_STRAY if stray else "block-singleton-count-exact", oc, key=key, input=inp, observed=obs,
+             expected=expected, nontrivial=nontrivial)
+    rep.case("mutation-block-map-exact", om, key=key, input=inp, observed=obs, expected=expected,
+             nontrivial=nontrivial)
+
+
 def check_blocks(rep, key, desc, ts, rng, block_singletons):
     for uname, unphased in unphased_masks(ts, rng):
         ukey = f"{key}/unphased-{uname}"
-        o_blocks, o_key, lopsided = oracle_blocks(ts, unphased)
+        o_blocks, o_key, lopsided, stray = oracle_blocks(ts, unphased)
         inp = {"desc": desc, "ts": bounded_api.ts_to_json(ts), "individuals_unphased": unphased.tolist()}
         expected = {"blocks": {str(sorted(k)): (c, float(s)) for k, (c, s) in o_blocks.items()},
-                    "mutation_block_edges": [None if k is None else sorted(k) for k in o_key]}
+                    "mutation_block_edges": [None if k is None else sorted(k) for k in o_key],
+                    "lopsided_individuals": sorted(lopsided), "stray_mutations": stray}
         try:
             stats, edges, mblock = block_singletons(ts, unphased)
         except Exception as exc:
-            names = (["known-block-tally-when-one-node-isolated"] if lopsided else
-                     ["block-edges-are-the-two-leaf-branches"])
-            for nm in names:
-                rep.case(nm, False, key=ukey, input=inp, observed=f"{type(exc).__name__}: {exc}",
-                         expected=expected)
+            rep.case(KNOWN_LOPSIDED if lopsided else "block-edges-are-the-two-leaf-branches", False, key=ukey,
+                     input=inp, observed=f"{type(exc).__name__}: {exc}", expected=expected)
             continue
         if not unphased.any():
             ok = stats.shape == (0, 2) and edges.shape == (0, 2) and bool(np.all(mblock == NULL)) \
@@ -512,19 +542,7 @@ def check_blocks(rep, key, desc, ts, rng, block_singletons):
                      nontrivial=ts.num_individuals > 0)
             continue
         oe, osp, oc, om, obs = compare_blocks(ts, stats, edges, mblock, o_blocks, o_key)
-        if lopsided:
-            rep.case("known-block-tally-when-one-node-isolated", oe and osp and oc and om, key=ukey, input=inp,
-                     observed=obs, expected=expected)
-            continue
-        nontrivial = len(o_blocks) > 0
-        rep.case("block-edges-are-the-two-leaf-branches", oe, key=ukey, input=inp, observed=obs,
-                 expected=expected, nontrivial=nontrivial)
-        rep.case("block-span-equals-shared-interval", osp, key=ukey, input=inp, observed=obs, expected=expected,
-                 nontrivial=nontrivial)
-        rep.case("block-singleton-count-exact", oc, key=ukey, input=inp, observed=obs, expected=expected,
-                 nontrivial=nontrivial)
-        rep.case("mutation-block-map-exact", om, key=ukey, input=inp, observed=obs, expected=expected,
-                 nontrivial=nontrivial)
+        report_blocks(rep, ukey, inp, expected, (oe, osp, oc, om), obs, lopsided, stray, len(o_blocks) > 0)
         # individuals that are not flagged contribute nothing
         flagged_nodes = set(int(u) for ind in ts.individuals() if unphased[ind.id] for u in ind.nodes)
         ok = all(int(mblock[m]) == NULL for m in range(ts.num_mutations)
@@ -540,44 +558,42 @@ def check_ep(rep, key, desc, ts, rng, EP, tallies):
     L, T = ts.sequence_length, ts.num_trees
     nsamp = max(1, ts.num_samples)
     for phased in (True, False):
+        ekey = f"{key}/ep-phased-{phased}"
         inp = {"desc": desc, "ts": bounded_api.ts_to_json(ts), "mutation_rate": mu, "singletons_phased": phased}
         unphased = np.full(ts.num_individuals, not phased)
-        try:
-            o_blocks, o_key, lopsided = oracle_blocks(ts, unphased) if not phased else ({}, [None] * ts.num_mutations,
-                                                                                      set())
-        except Exception:
+        if not phased and any(ind.nodes.size != 2 for ind in ts.individuals()):
             continue  # not diploid: outside the domain of singletons_phased=False
+        o_blocks, o_key, lopsided, stray = oracle_blocks(ts, unphased)
         try:
             fit = EP(ts, mutation_rate=mu, singletons_phased=phased, allow_unary=True)
         except ValueError:
-            continue  # clean rejection (disconnected nodes, non-diploid individuals, ...): not this property
+            continue  # clean rejection (disconnected nodes, historical individuals, ...): not this property
         except Exception as exc:
-            rep.case("known-block-tally-when-one-node-isolated" if lopsided else "ep-inputs-equal-tallies", False,
-                     key=f"{key}/ep-{phased}", input=inp, observed=f"{type(exc).__name__}: {exc}",
-                     expected="an object")
+            rep.case(KNOWN_LOPSIDED if lopsided else "ep-inputs-equal-tallies", False, key=ekey, input=inp,
+                     observed=f"{type(exc).__name__}: {exc}", expected="an object")
             continue
-        # spans are multiplied by mu: one more rounding, relative 2**-53 -> compare against exact span * mu
+        # spans are multiplied by mu: one more rounding (relative 2**-53), compared against exact span * mu
         fm = Fraction(mu)
-        tol = Fraction(1e-12) * Fraction(L) * (T + 1) * fm
+        tol = (Fraction(1e-12) * (T + 1) + Fraction(1e-15)) * Fraction(L) * fm
         ok = (np.array_equal(fit.mutation_edges, o_mut_edge)
               and np.array_equal(fit.edge_likelihoods[:, 0], o_counts)
               and np.array_equal(fit.sizebiased_likelihoods[:, 0], w_counts)
-              and span_close(fit.edge_likelihoods[:, 1], [x * fm for x in o_spans],
-                             tol + Fraction(1e-15) * Fraction(L) * fm)
-              and span_close(fit.sizebiased_likelihoods[:, 1], [x * fm for x in w_spans],
-                             (tol + Fraction(1e-15) * Fraction(L) * fm) * nsamp))
-        oe, osp, oc, om, obs = compare_blocks(ts, np.column_stack([fit.block_likelihoods[:, 0],
-                                                                   fit.block_likelihoods[:, 1] / mu]),
-                                              fit.block_edges, fit.mutation_blocks, o_blocks, o_key)
-        # dividing by mu again costs two roundings: covered by the 1e-12 L (T+1) tolerance in compare_blocks
-        if lopsided:
-            rep.case("known-block-tally-when-one-node-isolated", ok and oe and osp and oc and om,
-                     key=f"{key}/ep-{phased}", input=inp, observed=obs, expected="direct tallies")
-        else:
-            rep.case("ep-inputs-equal-tallies", ok and oe and osp and oc and om, key=f"{key}/ep-{phased}",
-                     input=inp, observed={"edge": fit.edge_likelihoods, "sizebiased": fit.sizebiased_likelihoods,
-                                          "blocks": obs},
-                     expected={"count": o_counts, "wcount": w_counts, "span_times_mu": [float(x * fm) for x in o_spans]})
+              and span_close(fit.edge_likelihoods[:, 1], [x * fm for x in o_spans], tol)
+              and span_close(fit.sizebiased_likelihoods[:, 1], [x * fm for x in w_spans], tol * nsamp))
+        rep.case("ep-inputs-equal-tallies", ok, key=ekey, input=inp,
+                 observed={"edge": fit.edge_likelihoods, "sizebiased": fit.sizebiased_likelihoods,
+                           "mutation_edges": fit.mutation_edges},
+                 expected={"count": o_counts, "weighted_count": w_counts, "mutation_edges": o_mut_edge,
+                           "span_times_mu": [float(x * fm) for x in o_spans],
+                           "weighted_span_times_mu": [float(x * fm) for x in w_spans]})
+        # block tallies held by the object (span / mu costs two more roundings: inside the 1e-12 L (T+1) bound)
+        stats = np.column_stack([fit.block_likelihoods[:, 0], fit.block_likelihoods[:, 1] / mu])
+        oe, osp, oc, om, obs = compare_blocks(ts, stats, fit.block_edges, fit.mutation_blocks, o_blocks, o_key)
+        expected = {"blocks": {str(sorted(k)): (c, float(s)) for k, (c, s) in o_blocks.items()},
+                    "mutation_block_edges": [None if k is None else sorted(k) for k in o_key],
+                    "lopsided_individuals": sorted(lopsided), "stray_mutations": stray}
+        report_blocks(rep, ekey, inp, expected, (oe, osp, oc, om), obs, lopsided, stray,
+                      len(o_blocks) > 0)
 
 
 def run(req, rep):
